@@ -1,13 +1,14 @@
 #!/bin/sh
 # usage: try_mutant.sh <seeded name> <check id>...   - runs quick checks against a scratch worktree with the seeded change applied
 name=$1; shift
+root=$(cd "$(dirname "$0")/.." && pwd)
 wt=$(mktemp -d /tmp/try-XXXXXX); rmdir $wt
-base=$(/venv/bin/python -c "import json,sys; print(json.load(open('/verif/seeded/$name/meta.json')).get('base','HEAD'))")
+base=$(/venv/bin/python -c "import json,sys; print(json.load(open('$root/seeded/$name/meta.json')).get('base','HEAD'))")
 git -C /repo worktree add -q --detach $wt $base || exit 2
 trap "git -C /repo worktree remove --force $wt" EXIT
-git -C $wt apply /verif/seeded/$name/patch.diff || exit 2
+git -C $wt apply $root/seeded/$name/patch.diff || exit 2
 for c in "$@"; do
-  out=$(VERIF_REPO=$wt /verif/check $c --tier ${TIER:-quick} 2>&1)
+  out=$(VERIF_REPO=$wt $root/check $c --tier ${TIER:-quick} 2>&1)
   echo "$name $c: $(echo "$out" | grep -c '^VIOLATION') violations; $(echo "$out" | grep -E '^check|further|MACHINERY' | tr '\n' ' ')"
   echo "$out" | grep -E '^VIOLATION|DRIFT' | head -3 | cut -c1-400
 done
